@@ -221,6 +221,39 @@ def _real_call(c, xs, inst=None):
     return [o.detach().double().numpy() for o in outs], rep
 
 
+def _sym_grad_twice(c):
+    """the same autograd graph back-propagated twice with the same cotangents -> (leaf gradients 1st, leaf gradients 2nd), each {atom: Poly}"""
+    spw = symtorch.sym(); st = symtorch.shim()
+    tens = []
+    for nm, s in _specs(c):
+        t, _ = core.symin(tuple(s), name=nm, dtype=st.float64, requires_grad=True)
+        tens.append(t)
+    m = _make_module(spw, c)
+    outs = [o for o in _invoke(m, c, _build_args(spw, c, tens)) if isinstance(o, T.Tensor) and o.a.dtype == object and o.requires_grad]
+    cots = [core.symin(tuple(o.shape), kind='cot', name='g')[0] for o in outs]
+    g1 = AG.backprop(outs, cots)
+    g2 = AG.backprop(outs, cots)
+    return g1, g2
+
+
+def _real_grad_twice(c, xs):
+    rt = symtorch.real_torch()
+    m = _make_module(symtorch.real(), c)
+    ts = [rt.tensor(x, dtype=rt.float64, requires_grad=True) for x in xs]
+    outs = [o for o in _invoke(m, c, _build_args(symtorch.real(), c, ts)) if isinstance(o, rt.Tensor) and o.requires_grad]
+    rng = np.random.default_rng(5)
+    gv = [rt.tensor(rng.uniform(-1, 1, size=tuple(o.shape))) for o in outs]
+    a = rt.autograd.grad(outs, ts, gv, retain_graph=True, allow_unused=True)
+    b = rt.autograd.grad(outs, ts, gv, retain_graph=True, allow_unused=True)
+    d = 0.0
+    for x, y in zip(a, b):
+        if (x is None) != (y is None):
+            return float('inf')
+        if x is not None and x.numel():
+            d = max(d, float((x - y).abs().max()))
+    return d
+
+
 # ---- module-level state digest --------------------------------------------------------------------
 
 def _digest_obj(o, depth=0):
@@ -469,6 +502,35 @@ def run_config(cfg):
                     res.violations.append(dict(what='output %d differs under torch.no_grad() (by %.3g at the sample point)' % (k, diff), facts=dict(facts, autograd=True),
                                                replay=dict(kind='autograd'), reproduced=diff > 1e-9))
                     break
+    # (f) the gradients of the call do not depend on history either: the same graph back-propagated a second time (retain_graph=True) gives the same gradients
+    if res.status == 'held' and not target.get('f32') and len(cfg['seq']) == 2 and cfg['seq'][0] == cfg['seq'][1]:
+        core.begin()
+        with symtorch.symbolic():
+            fo = core.outcome(lambda: _sym_grad_twice(target))
+        rfo = core.outcome(lambda: _real_grad_twice(target, xs))
+        if fo[0] == 'unsupported':
+            res.status = 'inconclusive'; res.notes.append('symbolic engine (backward twice): ' + fo[1])
+        elif fo[0] != rfo[0]:
+            res.status = 'error'; res.trace = 'backward twice: symbolic outcome %r differs from real %r' % (core.brief(fo), core.brief(rfo))
+        elif fo[0] == 'raise':
+            res.status = 'violation'
+            res.violations.append(dict(what='back-propagating a second time through the same graph raises %s' % (fo[1],), facts=dict(facts, autograd=True, twice=True), replay=dict(kind='twice'), reproduced=True))
+        else:
+            g1, g2 = fo[1]
+            for atom in sorted(set(g1) | set(g2)):
+                d = g1.get(atom, P.ZERO) - g2.get(atom, P.ZERO)
+                if d.is_zero():
+                    st.trivial_zero += 1
+                    continue
+                res.nontrivial = True
+                verdict, model = solver.decide_amplified(d, tau, label='grad_twice[%s]' % (atom,))
+                if verdict == 'sat':
+                    res.status = 'violation'
+                    res.violations.append(dict(what='the gradient of input atom %s differs between the first and the second back-propagation of the same graph (real torch: by %.3g)' % (atom, rfo[1]),
+                                               facts=dict(facts, autograd=True, twice=True), replay=dict(kind='twice'), reproduced=rfo[1] > 1e-9))
+                    break
+                if verdict != 'unsat':
+                    res.status = 'inconclusive'; res.notes.append('solver answered %s on grad_twice[%s]' % (verdict, atom)); break
     res.stats = st
     return res
 
